@@ -431,4 +431,59 @@ def serStep (s : SerialSys) (toks : List String) : SerialSys × String :=
   | ["end"] => (s, "end")
   | _ => (s, "bad-op")
 
+
+/-! ### `seq` mode: the sequential specification as judge of a distributed run
+
+Input: `model`, then every rank's `init` lines (seeded generator states), then per rank the
+`commit lp` lines (one per committed processed message of that LP, in commit order) and the
+`finilp` lines. For each `commit` the model prints the content the sequential execution delivers to
+that LP at that position; the harness prints the content the implementation committed. -/
+structure SeqSys where
+  P : Params := ⟨0, 1, 1, 1, 0, 0, false, false, false⟩
+  tterm : Nat := 0
+  rng0 : Array Rng := #[]
+  seq : Option (Array (Array Event) × Array GState) := none
+  committed : Array Nat := #[]
+
+def SeqSys.withSeq (s : SeqSys) : SeqSys :=
+  match s.seq with
+  | some _ => s
+  | none => { s with seq := some (seqRun s.P s.rng0 2000000) }
+
+def seqStep (s : SeqSys) (toks : List String) : SeqSys × String :=
+  match toks with
+  | ["model", seed, lps, types, fan, thr, spread, rng, mem, t0, _threads, _ckpt, tterm] =>
+    let P : Params := ⟨UInt64.ofNat (nat! seed), nat! lps, nat! types, nat! fan, nat! thr, nat! spread,
+      nat! rng != 0, nat! mem != 0, nat! t0 != 0⟩
+    ({ s with P := P, tterm := nat! tterm, rng0 := Array.replicate (nat! lps) ⟨0, 0, 0, 0⟩,
+              committed := Array.replicate (nat! lps) 0 }, "model ok")
+  | ["init", _, lp, a, b, c, d] =>
+    let lp := nat! lp
+    let rng : Rng := ⟨UInt64.ofNat (parseHexNat a), UInt64.ofNat (parseHexNat b),
+      UInt64.ofNat (parseHexNat c), UInt64.ofNat (parseHexNat d)⟩
+    ({ s with rng0 := s.rng0.set! lp rng }, s!"init lp={lp}")
+  | ["commit", lp] =>
+    let lp := nat! lp
+    let s := s.withSeq
+    let k := s.committed.getD lp 0
+    let s' := { s with committed := s.committed.set! lp (k + 1) }
+    match s.seq with
+    | some (disp, _) =>
+      match (disp.getD lp #[])[k]? with
+      | some e => (s', s!"commit lp={lp} tq={e.t} type={e.type} size={e.payload.length} pl={hx (payloadDigest e.payload)}")
+      | none => (s', s!"commit lp={lp} beyond-sequential-history")
+    | none => (s', "no-seq")
+  | ["finilp", _, lp] =>
+    let lp := nat! lp
+    let s := s.withSeq
+    match s.seq with
+    | some (_, sts) =>
+      let st := sts.getD lp {}
+      if s.tterm ≠ 0 then (s, s!"finilp lp={lp} seq=-")
+      else (s, s!"finilp lp={lp} seq={hx (digest st)} cnt={st.cnt.toNat}")
+    | none => (s, "no-seq")
+  | ["gvt", r, tq] => (s, s!"gvt {r} tq={tq}")
+  | ["end"] => (s, "end")
+  | _ => (s, "bad-op")
+
 end Driver.Run
